@@ -95,8 +95,10 @@ Rep == IF Profile = "quick"
        THEN {P("int"), P("str"), P("date"), E("Tag"), Cls("D1"), Cls("N2")}
        ELSE {P("int"), P("str"), P("float"), P("Decimal"), P("date"), P("datetime"), P("timedelta"), E("Tag"), E("Level"),
              Cls("D1"), Cls("N2"), Cls("TD1"), Cls("R1"), Cls("D1b")}
-KeyRep == IF Profile = "quick" THEN {P("str"), P("int"), E("Tag")}
-          ELSE {P("str"), P("int"), P("date"), P("UUID"), E("Tag"), E("Color"), Tup(<<P("int"), P("str")>>), Cls("D4")}
+\* (Decimal and aware datetime keys: equal keys that print differently -- exponent, UTC offset)
+KeyRep == IF Profile = "quick" THEN {P("str"), P("int"), E("Tag"), P("Decimal"), P("datetime")}
+          ELSE {P("str"), P("int"), P("date"), P("UUID"), P("Decimal"), P("datetime"), P("float"), E("Tag"), E("Color"),
+                Tup(<<P("int"), P("str")>>), Cls("D4")}
 
 Ctors(S, R, K) ==        \* one more constructor layer: S everywhere-eligible, R representative, K key types
        UNION {{Coll(cs[1], cs[2], a) : a \in {x \in R : SetLike(cs[1]) => Hashable(x)}} : cs \in CollSpell}
